@@ -34,9 +34,16 @@ Section Generic.
   Variables dist addc : C -> C -> C.
   Variables zero inf : C.
   Variable within_tol : Z -> Z -> bool.
-  (* [true]: the stop rules of the pinned tree (before 40af1ed), kept for the
-     refutation witnesses; [false]: the code at HEAD *)
-  Variable old : bool.
+  (* Which variant of par_rcb_split is modelled; the values that describe
+     /repo's current source are read by the translator (Gen/RcbGen.v), the
+     others are kept for the refutation witnesses.
+     [old]: the stop rules of the pinned tree (before 40af1ed);
+     [by_coord]: the pivot is the right-hand point of smallest COORDINATE
+       (fold, reduce and the `nothing on the right` rule compare coordinates);
+       [false]: of smallest rounded distance `point - split_target`;
+     [probe_max]: an exhausted interval is probed at `max`, not at the
+       rounded midpoint. *)
+  Variables old by_coord probe_max : bool.
 
   (* one element of the structure-of-arrays [Items]: its index in the caller's
      arrays (the `&AtomicUsize` cell it carries), its D coordinates, its weight *)
@@ -57,15 +64,17 @@ Section Generic.
 
   (* ---- the fold / reduce of par_rcb_split (l.479-521) ---- *)
 
-  (* (count_left, weight_left, nearest_idx, nearest_distance) *)
+  (* (count_left, weight_left, nearest_idx, nearest_distance or nearest_coord) *)
   Definition acc := (Z * Z * option nat * C)%type.
   Definition acc0 : acc := (0, 0, None, inf).
 
   Definition fold_step (t : C) (a : acc) (idx : nat) (x : C) (w : Z) : acc :=
     let '(cnt, wl, ni, nd) := a in
     let d := dist x t in
-    if ltb d zero then (cnt + 1, wl + w, ni, nd)
-    else if ltb d nd then (cnt, wl, Some idx, d)
+    let left := if by_coord then ltb x t else ltb d zero in
+    let key := if by_coord then x else d in
+    if left then (cnt + 1, wl + w, ni, nd)
+    else if ltb key nd then (cnt, wl, Some idx, key)
     else (cnt, wl, ni, nd).
 
   Fixpoint fold_chunk (t : C) (a : acc) (idx : nat) (xs : list keyed) : acc :=
@@ -99,8 +108,9 @@ Section Generic.
     match fuel with
     | O => OutOfFuel
     | S f =>
-      let t := mid mn mx in
-      let exhausted := negb (ltb mn t && ltb t mx) in
+      let m := mid mn mx in
+      let exhausted := negb (ltb mn m && ltb m mx) in
+      let t := if probe_max && exhausted then mx else m in
       let '(cnt, wl, ni, nd) := par_fold t (sch it) 0%nat xs in
       let same := match prev with Some c => c =? cnt | None => false end in
       match ni with
@@ -109,7 +119,7 @@ Section Generic.
         else search f sch (S it) xs sum mn t (if old then Some cnt else prev)
       | Some i =>
         let wr := sum - wl in
-        let nothing_right := leb mx (addc t nd) in
+        let nothing_right := leb mx (if by_coord then nd else addc t nd) in
         let tol := within_tol wl sum in
         let stop_now :=
           if old then same || nothing_right || tol
@@ -407,7 +417,10 @@ Arguments AllLeft {C}.
 
 Definition f32_zero : spec_float := S754_zero false.
 Definition f32_inf : spec_float := S754_infinity false.
-Definition f32_mid (mn mx : spec_float) : spec_float := f32_div (f32_add mn mx) (f32_of_Z 2).
+(* [safe]: `min / 2.0 + max / 2.0`; otherwise `(min + max) / 2.0` *)
+Definition f32_mid (safe : bool) (mn mx : spec_float) : spec_float :=
+  if safe then f32_add (f32_div mn (f32_of_Z 2)) (f32_div mx (f32_of_Z 2))
+  else f32_div (f32_add mn mx) (f32_of_Z 2).
 Definition f32_valid (x : spec_float) : bool := negb (is_nan x).
 
 (* `let ideal = sum.to_f64().unwrap() / 2.0; |(wl.to_f64() - ideal) / ideal| <= tolerance`
@@ -452,7 +465,9 @@ Fixpoint mk_items (i : nat) (pts : list (list spec_float)) (ws : list Z) : list 
 
 (* `rcb` (l.643-704) for f64 points given by their values and i64 weights.
    [pts]: the f64 coordinates (D per point). *)
-Definition rcb (old : bool) (fuel : nat) (sched : N -> nat -> stree) (D k : nat)
+Record variant := mkvariant { v_old : bool; v_by_coord : bool; v_probe_max : bool; v_safe_mid : bool }.
+
+Definition rcb (v : variant) (fuel : nat) (sched : N -> nat -> stree) (D k : nat)
            (tol : spec_float) (pts : list (list spec_float)) (ws : list Z) (p0 : list N)
   : res (list N) :=
   if negb (Nat.eqb (length ws) (length p0)) then Err (InputLenMismatch (length p0) (length ws))
@@ -464,7 +479,8 @@ Definition rcb (old : bool) (fuel : nat) (sched : N -> nat -> stree) (D k : nat)
       match bbox32 D 0 pts with
       | None => Panic 1
       | Some bb =>
-        rcb_core spec_float flt fle f32_mid f32_sub f32_add f32_zero f32_inf (tol_test tol) old
+        rcb_core spec_float flt fle (f32_mid (v_safe_mid v)) f32_sub f32_add f32_zero f32_inf (tol_test tol)
+                 (v_old v) (v_by_coord v) (v_probe_max v)
                  fuel sched D k (mk_items 0 pts ws) (sumZ ws) bb p0
       end
     end.
@@ -475,20 +491,21 @@ Definition seq_sched : N -> nat -> stree := fun _ _ => SLeaf.
 Definition check_bisect32 (D k : nat) (pts : list (list spec_float)) (ids : list N) : bool :=
   check_bisect spec_float flt f32_valid D k (map (map f64_to_f32) pts) ids.
 
-(* first offset accepted by the tree check *)
-Fixpoint find_offset (n : nat) (off : N) (D k : nat) (pts : list (list spec_float)) (ids : list N) : option N :=
+(* C04: some offset of the leaf numbering gives a bisection tree (C03) all of
+   whose nodes are balanced *)
+Fixpoint try_balance (n : nat) (off : N) (D k : nat) (tol : spec_float)
+         (pts : list (list spec_float)) (ws : list Z) (ids : list N) : bool :=
   match n with
-  | O => None
+  | O => false
   | S n' =>
     let its := with_off spec_float off pts ids in
-    if forallb (fun it => (snd it <? 2 ^ N.of_nat k)%N) its && check_tree spec_float flt D k 0%nat its
-    then Some off else find_offset n' (off + 1)%N D k pts ids
+    (forallb (fun it => (snd it <? 2 ^ N.of_nat k)%N) its && check_tree spec_float flt D k 0%nat its
+     && check_balance spec_float flt (tol_test tol) D k off pts ws ids)
+    || try_balance n' (off + 1)%N D k tol pts ws ids
   end.
 
 Definition check_balance32 (D k : nat) (tol : spec_float) (pts : list (list spec_float))
            (ws : list Z) (ids : list N) : bool :=
   let p32 := map (map f64_to_f32) pts in
-  match find_offset (Nat.pow 2 k) 0%N D k p32 ids with
-  | None => false
-  | Some off => check_balance spec_float flt (tol_test tol) D k off p32 ws ids
-  end.
+  forallb (fun p => Nat.eqb (length p) D && forallb f32_valid p) p32
+  && try_balance (Nat.pow 2 k) 0%N D k tol p32 ws ids.
